@@ -830,6 +830,10 @@ func (ex *Exec) next(fr *Frame, st *State, x *ssa.Next) Val {
 	mt := rng.X.Type().Underlying().(*types.Map)
 	m := ex.term(fr, rng.X)
 	k := Fresh("rng.k", mapKeySort(mt))
+	if st.iters == nil {
+		st.iters = map[*ssa.Range]*Term{}
+	}
+	st.iters[rng] = ok // the answer of the last `next` of this map iterator: rangedone()
 	ex.fact(st, Implies(ok, st.heap.mapHas(m, mt, k)))
 	ex.fact(st, Implies(Eq(m, Null()), Not(ok)))
 	ex.fact(st, Implies(Eq(st.heap.mapLen(m), IntT(0)), Not(ok)))
